@@ -17,6 +17,13 @@ Ltac fresh_alloc Hf :=
   intros h Hh; destruct (Hf h ltac:(lia)) as (?&?&?&?&?&?&?); repeat split; try done;
   (rewrite lookup_insert_ne; [done | lia]).
 
+Lemma inv_new_other s : Inv s → Inv (new_other s).1.
+Proof.
+  intros Hinv. unfold new_other, alloc. cbn.
+  destruct Hinv. split; cbn; try assumption.
+  intros h Hh. apply inv_fresh. lia.
+Qed.
+
 Lemma inv_new_network s : Inv s → Inv (new_network s).1.
 Proof.
   intros Hinv. destruct (fresh_next s Hinv) as (Hn&Hb&Hnd&Hi&Hm&He&Hv).
